@@ -47,6 +47,9 @@ type Case struct {
 	// these option bits (plus 8 = an authentication callback that accepts everything): the judged
 	// validation must go as on a fresh document
 	PreOpts int `json:"pre_opts,omitempty"`
+	// PreSibling: a request to the sibling operation of the same path item (PUT, which overrides exactly
+	// the path-level parameters POST does not) is validated first
+	PreSibling bool `json:"pre_sibling,omitempty"`
 	// BodyStyle: "" (a strings.Reader: length known, GetBody set) | reader | chunked
 	BodyStyle string `json:"body_style,omitempty"`
 }
@@ -130,6 +133,18 @@ func build(c Case) (*openapi3.T, error) {
 	if len(pathParams) > 0 {
 		pi["parameters"] = pathParams
 	}
+	// the sibling operation overrides the complementary set of path-level parameters
+	sib := M{"responses": M{"200": M{"description": "d"}}}
+	var sibParams []any
+	for _, p := range c.Params {
+		if p.Level == "path" {
+			sibParams = append(sibParams, M{"name": p.Name, "in": p.In, "schema": highSchema()})
+		}
+	}
+	if len(sibParams) > 0 {
+		sib["parameters"] = sibParams
+	}
+	pi["put"] = sib
 	raw := kinx.Doc(M{"/r": pi}, M{"securitySchemes": M{
 		"s1": M{"type": "http", "scheme": "basic"}, "s2": M{"type": "apiKey", "name": "k", "in": "header"}, "s3": M{"type": "http", "scheme": "bearer"},
 	}})
@@ -245,6 +260,21 @@ func check(c Case) (o h.Outcome) {
 			return
 		}
 		o.Class("prelude")
+	}
+	if c.PreSibling {
+		route2, rerr := kinx.Route(doc, "/r", "PUT")
+		if rerr != nil {
+			panic("harness: " + rerr.Error())
+		}
+		pre := req.Clone(context.Background())
+		pre.Method, pre.Body, pre.ContentLength, pre.GetBody = "PUT", nil, 0, nil
+		po := &openapi3filter.Options{AuthenticationFunc: openapi3filter.NoopAuthenticationFunc, SkipSettingDefaults: true, MultiError: c.PreOpts&1 != 0}
+		if !o.Guarded("ValidateRequest(sibling)", func() {
+			_ = openapi3filter.ValidateRequest(context.Background(), &openapi3filter.RequestValidationInput{Request: pre, Route: route2, Options: po})
+		}) {
+			return
+		}
+		o.Class("prelude:sibling-operation")
 	}
 	in := &openapi3filter.RequestValidationInput{Request: req, Route: route, Options: opts}
 	var verr error
@@ -528,6 +558,7 @@ func gen(t *rapid.T) Case {
 	if rapid.IntRange(0, 2).Draw(t, "prelude") == 0 {
 		c.PreOpts = rapid.IntRange(1, 15).Draw(t, "preopts")
 	}
+	c.PreSibling = rapid.IntRange(0, 2).Draw(t, "presibling") == 0
 	c.BodyStyle = rapid.SampledFrom([]string{"", "", "reader", "chunked"}).Draw(t, "bodystyle")
 	return c
 }
